@@ -574,3 +574,27 @@ Proof.
   - intros n g' S St. destruct (steps_inv _ _ _ S HI C) as [HI' C']. apply never_stuck; assumption.
 Qed.
 End B.
+
+(* the form used by the instances: the assumptions on Io spelled out *)
+Theorem wf_net_terminates N (Hwf : wf N = true) D io_ret :
+  io_assumptions io_ret true ->
+  forall g, reach N D io_ret g -> cancelled g = true ->
+  (forall n g', steps N D io_ret n g g' -> n <= total N D g) /\
+  (forall n g', steps N D io_ret n g g' -> stuck N D io_ret g' -> forall p, procs g' p = Exited).
+Proof.
+  intros [Hr [Hw [Hp Hf]]]. apply cancelled_terminates; [exact Hwf|].
+  intros kd Hk. destruct kd; auto; exfalso; apply Hk; reflexivity.
+Qed.
+
+(* from the start: if the net is cancelled before anything ran the bound is static *)
+Lemma total_init N D : total N D (init N) =
+  list_sum (map (fun p => S (M D (lift (body (info N p)))) + S (M D (lift (finally (info N p))))) (seq 0 (nprocs N))).
+Proof.
+  unfold total. apply sum_same. intros q Iq. apply in_seq in Iq. unfold init. cbn [procs].
+  destruct (Nat.ltb q (nprocs N)) eqn:E; [reflexivity|]. apply Nat.ltb_ge in E. lia.
+Qed.
+
+(* success channel: while its only sender is still in its body nothing has been sent on it *)
+Theorem once_chan_empty N (Hwf : wf N = true) D io_ret g c p k :
+  reach N D io_ret g -> sender N c = Some p -> procs g p = Running false k -> len (chans g c) = 0.
+Proof. intros R. exact (inv_once N g (reach_inv N D io_ret Hwf g R) c p k). Qed.
